@@ -13,6 +13,7 @@ import (
 	"os"
 	"path/filepath"
 	"runtime"
+	"runtime/debug"
 	"sort"
 	"strconv"
 	"strings"
@@ -123,6 +124,7 @@ func cmdCheck(args []string) int {
 			defer func() {
 				if r := recover(); r != nil {
 					errs[i] = fmt.Errorf("checker panic on %s: %v", cfg, r)
+					fmt.Fprintf(os.Stderr, "%s\n", debug.Stack())
 				}
 			}()
 			p, err := loadFor(chk, cfg, nil)
